@@ -36,6 +36,12 @@ def pair_src(sa, sb):
     parts = ["try (a %s b) catch _ -> \"E\"" % o for o in OPS]
     parts.append("try (min(a, b)) catch _ -> \"E\"")
     parts.append("try (max(a, b)) catch _ -> \"E\"")
+    # the streaming folds behind `yield .. into min / max` order (and refuse) exactly like the direct forms
+    parts.append("try (for (x <- [a, b]) yield x into min) catch _ -> \"E\"")
+    parts.append("try (for (x <- [a, b]) yield x into max) catch _ -> \"E\"")
+    # a float carried as a complex number with zero imaginary part is still compared with reals by exact value
+    parts.append("try ((if (a is float) (a + 0.0i) else a) == b) catch _ -> \"E\"")
+    parts.append("try ((if (a is float) (a + 0.0i) else a) != b) catch _ -> \"E\"")
     return "(\\a, b -> [%s])(%s, %s)" % (", ".join(parts), sa, sb)
 
 
@@ -70,6 +76,10 @@ def judge_pair(a, b, sa, sb, res):
         expect(1, I(1), "a != b with NaN")
         for i, o in enumerate(OPS[2:], 2):
             expect(i, E, "a %s b with NaN must raise" % o)
+        if out[10] != out[8] or out[11] != out[9]:
+            fails.append("yield .. into min/max with NaN: %s / %s but min(a, b) / max(a, b): %s / %s" % (out[10], out[11], out[8], out[9]))
+        expect(12, I(0), "complex-carried a == b with NaN")
+        expect(13, I(1), "complex-carried a != b with NaN")
     else:
         expect(0, I(c == 0), "a == b")
         expect(1, I(c != 0), "a != b")
@@ -88,6 +98,12 @@ def judge_pair(a, b, sa, sb, res):
             fails.append("min(a, b): expected one of %s, got %s" % (lo, out[8]))
         if out[9] not in hi:
             fails.append("max(a, b): expected one of %s, got %s" % (hi, out[9]))
+        if out[10] not in lo:
+            fails.append("for (x <- [a, b]) yield x into min: expected one of %s, got %s" % (lo, out[10]))
+        if out[11] not in hi:
+            fails.append("for (x <- [a, b]) yield x into max: expected one of %s, got %s" % (hi, out[11]))
+        expect(12, I(c == 0), "(a as complex with zero imaginary part) == b")
+        expect(13, I(c != 0), "(a as complex with zero imaginary part) != b")
     if fails:
         near = "eq" if c == 0 else ("nan" if c is None else "ne")
         return Fail("%s:%s" % (sig, near), "%s: %s" % (src, "; ".join(fails)), {"src": src})
